@@ -389,4 +389,8 @@ void encode_imm(struct instr *instrc) {
   if ((instrc->opd[0].reg & MODE_MASK) < reg16) {
     DO_NOT_PAD(instrc->cons, instrc->reduced_imm, MAX_UNSIGNED_8BIT);
   }
+  // a word-sized memory destination takes the low 16 bits of a negative value
+  if (instrc->mem_disp && instrc->keyword.is_word && instrc->reduced_imm &&
+      instrc->cons > MAX_UNSIGNED_16BIT)
+    instrc->cons &= MAX_UNSIGNED_16BIT;
 }
